@@ -6,6 +6,8 @@ from ..monitor import StepBudgetExceeded
 from .common import Contract, ansi_values, history, run_cases, tier_sizes, is_ansi, FLAG_COMBOS
 from .c08 import Snap
 from .c05 import self_insertion, seam_workshop
+from .c06 import restart_workshop
+from .c07 import remove_workshop
 
 PROP = 'C09'
 STEP_BUDGET = 20000000
@@ -269,6 +271,9 @@ def drive(ctx, mon, tier, only_case=None):
             if rng.random() < 0.5:
                 self_insertion(ctx, mon, rng, L)
                 seam_workshop(ctx, mon, rng, L)
+            if rng.random() < 0.5:
+                restart_workshop(ctx, mon, rng, L)
+                remove_workshop(ctx, mon, rng, L)
         except StepBudgetExceeded:
             ctx.aborted['step-budget'] += 1
         if len(ex.pool) >= 2:
